@@ -35,12 +35,15 @@ class Tag(object):
 
 
 def discharge(chk, ex, name, prop, inputs, tags=(), replay=None, describe=None, extra_case=None,
-              max_rounds=6):
+              max_rounds=6, prefer=None):
     """Prove `prop` under ex's current path condition.
     inputs : dict name -> z3 expr/int (evaluated in counter-models to build the concrete case)
     tags   : list of Tag
     replay : callable(case) -> (ok, script_path); ok True if the violation reproduces on the
              real build, False if not, None if no replay is possible for this obligation
+    prefer : optional condition describing the inputs the replay script can drive through the
+             public API; when a counter-model exists, one inside that region is looked for first
+             (the verdict does not depend on it: if none exists the unrestricted model is used)
     Returns True if discharged (possibly modulo known findings)."""
     excl = []
     for rnd in range(max_rounds):
@@ -52,6 +55,13 @@ def discharge(chk, ex, name, prop, inputs, tags=(), replay=None, describe=None, 
             chk.query(name, 'unknown', time.time() - t)
             chk.inconc('%s: %s' % (name, e))
             return False
+        if m is not None and prefer is not None:
+            try:
+                m2 = ex.sat(llsym.b_and(cond, prefer))
+            except llsym.Unsupported:
+                m2 = None
+            if m2 is not None:
+                m = m2
         dt = time.time() - t
         if m is None:
             chk.query(name, 'unsat', dt)
